@@ -21,6 +21,7 @@ package main
 // VerifIndexHandlePos) == 136 * complete records == the index model's load (oracle op idx).
 
 import (
+	"bytes"
 	"encoding/binary"
 	"encoding/hex"
 	"fmt"
@@ -43,6 +44,8 @@ type tornJob struct {
 	dir     string
 	res     *ChildRes
 	res3    *ChildRes
+	srcIdx  []byte // blockchain.new of the source as tornSource read it
+	srcSnap string // block hash in the source's snapshot header as tornSource read it
 }
 
 func (j *tornJob) tag() string {
@@ -54,13 +57,14 @@ func (j *tornJob) tag() string {
 }
 
 type tornSrc struct {
-	window bool // an undo file under the snapshot's block names another block: the directory lies in the window of the known finding undo-file-keyed-by-height
-	dir   string
-	hit   Hit
-	idx   []byte
-	snap  int // record number of the snapshot's block
-	old   bool
-	label string
+	window   bool // an undo file under the snapshot's block names another block: the directory lies in the window of the known finding undo-file-keyed-by-height
+	dir      string
+	hit      Hit
+	idx      []byte
+	snap     int // record number of the snapshot's block
+	old      bool
+	label    string
+	snapHash string // block hash in the snapshot header
 }
 
 func recHash(idx []byte, rec int) string {
@@ -82,7 +86,7 @@ func (h *Harness) tornSource(dir string, ht Hit, old bool, label string) *tornSr
 	if !ok {
 		return nil
 	}
-	s := &tornSrc{dir: dir, hit: ht, idx: idx, snap: -1, old: old, label: label}
+	s := &tornSrc{dir: dir, hit: ht, idx: idx, snap: -1, old: old, label: label, snapHash: sh}
 	for rec := 0; rec < len(idx)/136; rec++ {
 		if idx[rec*136]&0x02 == 0 && recHash(idx, rec) == sh {
 			s.snap = rec
@@ -133,7 +137,7 @@ func (h *Harness) tornStart(p *pending) {
 			datName = "bl00000000.dat"
 		}
 		add := func(rec, off int, datN int64) {
-			j := &tornJob{hit: s.hit, src: s.dir, label: s.label, old: s.old, n: int64(rec*136 + off), datN: datN, datName: datName, removed: nrec - rec}
+			j := &tornJob{hit: s.hit, src: s.dir, label: s.label, old: s.old, n: int64(rec*136 + off), datN: datN, datName: datName, removed: nrec - rec, srcIdx: s.idx, srcSnap: s.snapHash}
 			if rec >= nrec {
 				j.n = -1
 			}
@@ -193,6 +197,20 @@ func (h *Harness) tornStart(p *pending) {
 			os.Remove(j.dir + "UTXO.db")
 			os.Rename(j.dir+"UTXO.old", j.dir+"UTXO.db")
 			os.Remove(j.dir + ".lock")
+		}
+		// the children of the capture (started earlier) re-open and change the source directory: a copy taken after one of
+		// them saved a newer snapshot or appended records is not the directory tornSource looked at (its snapshot may then lie
+		// ABOVE the cut, which is the known finding index-truncated-below-snapshot and not what this family is about) - skip it
+		if ci, e := os.ReadFile(j.dir + "blockchain.new"); e != nil || !bytes.Equal(ci, j.srcIdx) {
+			h.r.Hit("torn:source-changed-before-copy")
+			os.RemoveAll(j.dir)
+			p.wg.Done()
+			continue
+		} else if sh, _, _, ok := readSnapHeader(j.dir + "UTXO.db"); !ok || sh != j.srcSnap {
+			h.r.Hit("torn:source-changed-before-copy")
+			os.RemoveAll(j.dir)
+			p.wg.Done()
+			continue
 		}
 		if j.n >= 0 {
 			os.Truncate(j.dir+"blockchain.new", j.n)
